@@ -112,7 +112,7 @@ FIND_MODELLED = [
 ]
 
 PROPS = {
-    "C17": {"engine": "find", "extra_engines": ["cli"], "modelled": FIND_MODELLED,
+    "C17": {"engine": "find", "extra_engines": ["cli"], "extra_props": ["FactsFind"], "modelled": FIND_MODELLED,
             "assumptions": ["start and stop are absolute, clean paths of existing readable directories (cli/app passes $CWD and $HOME); "
                             "reading fixed for a RELATIVE start (Find.findRel, Find.relSpec, theorem C17_rel_spec): the call terminates and finds the nearest "
                             "spokfile between start and the working directory, where the climb of a relative path ends"]},
